@@ -87,7 +87,9 @@ MODELS = {
                          model(6, 4, programs=[[ROOT_ATTACH]])]},
     'C05': {'quick': [model(4, 3, toks=(PLAIN, TOK_HD), edges=('--', 'HD'), programs=CROSS),
                       model(3, 2, toks=(PLAIN, TOK_HD, TOK_NK), edges=('--', 'HD', 'NK'), programs=CROSS[:1],
-                            note='all three ranks of the NeGra heuristic (HD, NK, none)')],
+                            note='all three ranks of the NeGra heuristic (HD, NK, none)'),
+                      model(4, 3, MaxChain=2, toks=(PLAIN, TOK_HD), edges=('--', 'HD'), programs=CROSS[:1],
+                            note='unary chains (a unary node over a discontinuous node)')],
             'thorough': [model(5, 3, toks=(PLAIN, TOK_HD), edges=('--', 'HD'), programs=CROSS[:1]),
                          model(4, 3, MaxChain=2, toks=(PLAIN, TOK_HD), edges=('--', 'HD'), programs=CROSS)]},
     'C13': {'quick': [model(4, 2, toks=(PLAIN, TOK_COMMA, TOK_QUOTE), programs=PUNCTP[:2] + PUNCTP[3:]),
